@@ -278,9 +278,19 @@ def assemble(
 
         assert_first_op_assembled(fjm_writer)
 
-        with PrintTimer('  create binary:   ', print_time=print_time):
-            fjm_writer.write_to_file()
-            save_debugging_labels(debugging_file_path, labels)
+        try:
+            with PrintTimer('  create binary:   ', print_time=print_time):
+                fjm_writer.write_to_file()
+                save_debugging_labels(debugging_file_path, labels)
+        except BaseException:
+            # a failed assembly must not leave behind an output file that loads as a program
+            #  (a full .fjm next to an unwritable debugging-file, or a half-written .fjm).
+            if fjm_writer.output_file_created:
+                try:
+                    Path(fjm_writer.output_file).unlink()
+                except OSError:
+                    pass
+            raise
 
     except FlipJumpException as fj_exception:
         raise fj_exception
